@@ -18,8 +18,11 @@ def build(env, per_cell):
     g = gen.G(env.rnd)
     rnd = env.rnd
     cw = cl.CaseW()
-    for (kem, kdf, aead) in gen.suites():
+    for (kem, kdf, aead) in gen.suites() + [(k, d, 0xFFFF) for k in gen.KEMS for d in gen.KDFS[: (1 if per_cell == 1 else 3)]]:
         for mode in gen.MODES:
+            if aead == 0xFFFF:
+                export_only_session(cw, g, rnd, kem, kdf, mode)
+                continue
             for j in range(per_cell):
                 s = cw.session(kem, kdf, aead, sid="q%d" % len(cw.sessions))
                 nsk = gen.nsk(kem)
@@ -129,6 +132,42 @@ def build(env, per_cell):
     return cw
 
 
+def export_only_session(cw, g, rnd, kem, kdf, mode):
+    """single-shot vs composed on an export-only suite: both must behave the same (panic alike, fail alike)"""
+    s = cw.session(kem, kdf, 0xFFFF, sid="q%d" % len(cw.sessions))
+    nsk = gen.nsk(kem)
+    gen.add_keys(s, g, kem, "kR")
+    gen.add_keys(s, g, kem, "kS")
+    pa = dict(psk=g.rbytes(32), pskid=g.rbytes(4)) if mode in (1, 3) else {}
+    sa = dict(sks="$kS.sk", pks="$kS.pk", **pa) if mode in (2, 3) else dict(pa)
+    ra = dict(pks="$kS.pk", **pa) if mode in (2, 3) else dict(pa)
+    rng = g.rbytes(nsk)
+    k = 0
+    for api in ("alloc", "inplace"):
+        k += 1
+        s.call("ss_seal", mode=mode, pkr="$kR.pk", info="-", pt="0102", aad="-", rng=rng, api=api, pair=k, side="a", cmp="ss_seal", path="export_only", **sa)
+        s.call("setup_s", mode=mode, pkr="$kR.pk", info="-", rng=rng, out="C%d" % k, **sa)
+        s.call("seal", ctx="C%d" % k, api=api, pt="0102", aad="-", pair=k, side="b", cmp="ss_seal", path="export_only", encfrom="C%d" % k)
+        k += 1
+        oa = dict(ct="00" * 20) if api == "alloc" else dict(ct="00" * 4, tag="-")
+        s.call("ss_open", mode=mode, skr="$kR.sk", enc="$C%d.enc" % (k - 1), info="-", aad="-", api=api, pair=k, side="a", cmp="ss_open", path="export_only", **oa, **ra)
+        s.call("setup_r", mode=mode, skr="$kR.sk", enc="$C%d.enc" % (k - 1), info="-", out="D%d" % k, **ra)
+        s.call("open", ctx="D%d" % k, api=api, aad="-", pair=k, side="b", cmp="ss_open", path="export_only", **oa)
+    if kem == 0x0020:
+        bad = rnd.choice(curves.X25519_SMALL_ORDER).hex()
+        k += 1
+        s.call("ss_seal", mode=mode, pkr=bad, info="-", pt="0102", aad="-", rng=rng, api="inplace", pair=k, side="a", cmp="ss_seal", path="export_only_small_order", **sa)
+        s.call("setup_s", mode=mode, pkr=bad, info="-", rng=rng, out="Z%d" % k, pair=k, side="b", cmp="ss_seal", path="export_only_small_order", **sa)
+        k += 1
+        s.call("ss_open", mode=mode, skr="$kR.sk", enc=bad, info="-", ct="00", tag="-", aad="-", api="inplace", pair=k, side="a", cmp="ss_open", path="export_only_small_order", **ra)
+        s.call("setup_r", mode=mode, skr="$kR.sk", enc=bad, info="-", out="F%d" % k, pair=k, side="b0", cmp="ss_open", path="export_only_small_order", **ra)
+
+
+def _panic_kind(o):
+    """panics are compared by their message, not by file:line"""
+    return o.split("_@")[0] if o.startswith("panic=") else o
+
+
 def norm_seal(op, sess, encs):
     """(enc, ct, tag) or error string"""
     if op.ret is None:
@@ -176,16 +215,18 @@ def monitor(sess, extra):
                 va, vb = a.outcome(), b.outcome()
             else:
                 va, vb = norm_seal(a, sess, encs), norm_seal(b, sess, encs)
+            if isinstance(va, str) and isinstance(vb, str):
+                va, vb = _panic_kind(va), _panic_kind(vb)
             if va != vb:
                 r.violation("C14:ss_seal:%s" % path, "single_shot_seal%s differs from setup_sender + seal with the same RNG bytes: %s vs %s" % (
                     "_in_place_detached" if a.args.get("api") == "inplace" else "", _short(va), _short(vb)), sess, a)
                 continue
         elif cmpk == "ss_open":
-            vb = b.outcome()
-            va = a.outcome()
+            vb = _panic_kind(b.outcome())
+            va = _panic_kind(a.outcome())
             if a.ok() and b.ok():
                 va, vb = a.ret.get("pt"), b.ret.get("pt")
-            elif va == vb and "buf" in a.ret and "buf" in b.ret and a.ret["buf"] != b.ret["buf"]:
+            elif va == vb and not va.startswith("panic") and "buf" in a.ret and "buf" in b.ret and a.ret["buf"] != b.ret["buf"]:
                 va, vb = "buffer after failure " + a.ret["buf"][:40], "buffer after failure " + b.ret["buf"][:40]
             if va != vb:
                 r.violation("C14:ss_open:%s" % re.sub(r"_\d+$", "", path), "single_shot_open%s differs from setup_receiver + open (%s path): %s vs %s" % (
